@@ -116,12 +116,26 @@ def check(case):
     wn, mean, var = _wstats(X, w)
     scaler = StandardFlexibleScaler(with_mean=wm, with_std=ws, column_wise=cw, rtol=rtol, atol=atol)
     try:
+        Xbuf = X.copy()
         if case.get("used"):  # a USED scaler: fitted before on other data of the same shape, with the other weight form
+            Xbuf = np.ascontiguousarray(X[::-1] * 1.5 + np.arange(m) + 3.0, dtype=float)
             try:
-                scaler.fit(X[::-1] * 1.5 + np.arange(m) + 3.0, sample_weight=np.arange(1.0, n + 1.0) if w is None else None)
+                scaler.fit(Xbuf, sample_weight=np.arange(1.0, n + 1.0) if w is None else None)
             except ValueError:
                 pass
-        scaler.fit(X.copy(), sample_weight=None if w is None else np.array(w, float))
+            # ... and once more with the SAME weight form, held in the caller's own weight buffer
+            Xbuf[...] = X[::-1] * 0.5 - 1.0
+            wbuf = None if w is None else np.ascontiguousarray(np.array(w, float)[::-1] * 2.0 + 1.0)
+            try:
+                scaler.fit(Xbuf, sample_weight=wbuf)
+            except ValueError:
+                pass
+            Xbuf[...] = X  # the caller refills the same array objects
+            if wbuf is not None:
+                wbuf[...] = np.array(w, float)
+        else:
+            wbuf = None if w is None else np.array(w, float)
+        scaler.fit(Xbuf, sample_weight=wbuf)
         rejected = False
     except ValueError:
         rejected = True
